@@ -43,6 +43,13 @@ def spec(tier):
     # dedicated jobs for the scenario classes excluded from the bulk
     jobs.append(hio("pipe-hangup", 10, first=0, timeout=240, tag="h_io:pipe-hangup:hooks"))
     jobs.append(hio("conv", 60 if quick else 500, first=nxt[0], flavor="asan", timeout=600, tag="h_io:conv-pair:asan"))
+    # descriptors and paths the library cannot use (invalid, wrong type, wrong access mode, missing path) with a bystander
+    # channel on a healthy file of the same device (harness/h_iobad.c)
+    nb = 60 if quick else 600
+    for i in range(2 if quick else 8):
+        jobs.append(Job("hooks", "h_iobad", ["--trials=%d" % nb, "--first=%d" % (i * nb)], ncpu=[None, 4, 2, None][i % 4], timeout=T, tag="h_iobad:hooks:%d" % i))
+    jobs.append(Job("asan", "h_iobad", ["--trials=%d" % nb, "--first=90000"], timeout=600 if quick else 1800, env={"VF_LSAN": "1"}, tag="h_iobad:asan"))
+    jobs.append(Job("hooks", "h_iobad", ["--trials=%d" % nb, "--first=91000", "--sigstorm=2000"], timeout=T, tag="h_iobad:sigstorm"))
     if not quick:
         add("default", 20, 500, flavor="dbg", extra=BULK, timeout=1800)
         add("default", 10, 300, flavor="asan", ncpu=2, extra=BULK, timeout=1800)
@@ -64,6 +71,9 @@ def spec(tier):
         "ecanceled_ops": 600 * k,
         "ops_after_close": 400 * k,
         "cleanup_handlers": 700 * k,
+        "unusable_descriptor_trials": 150 * (1 if quick else 10),
+        "unusable_descriptor_writes": 150 * (1 if quick else 10),
+        "bystander_operations_on_healthy_file": 300 * (1 if quick else 10),
         "pipe": 200 * k, "socket": 120 * k, "file": 200 * k,
         "create": 250 * k, "create_with_path": 60 * k, "create_with_io": 100 * k, "convenience": 150 * k,
     }
@@ -82,11 +92,17 @@ def spec(tier):
             "exactly once / after the handlers of operations scheduled before close / error 0 / descriptor still open, "
             "liveness by watchdog; ASan for buffer lifetime. non-trivial = an operation received its data in >= 2 invocations or "
             "a close/stop landed while an operation was in flight; distinct = (transport, type, constructor, direction, op mix, "
-            "water-mark class, interval class, close placement, handler-queue kind, outcome classes)")
+            "water-mark class, interval class, close placement, handler-queue kind, outcome classes). A second harness (h_iobad) runs "
+            "the same APIs on descriptors / paths the library cannot use (not open, RANDOM on a pipe, a directory, a missing path, "
+            "a file or pipe end opened for the other direction: EBADF at the first read()/write() with more operations queued) next "
+            "to a bystander channel on a healthy file of the same device: done exactly once, failed reads deliver nothing, failed "
+            "writes hand the whole submitted data back (bytes written + bytes reported unwritten = submitted), cleanup exactly once, "
+            "bystander operations complete in full with the right bytes")
     opts = {
         "assumptions": [
             "ordering of completions is only judged on serial handler queues (on concurrent/global queues the byte ranges alone show that the I/O was performed in submission order)",
             "cleanup-after-handlers is only judged for operations scheduled before dispatch_io_close was called; low-water guarantees and timing of interval deliveries are not part of C14",
+            "on channels whose creation failed the cleanup handler is posted at once; its position relative to the handlers of operations submitted to the failed channel is recorded (handlers_after_cleanup_of_failed_channel), not judged",
             "kernel short counts / EINTR injection (symbol interposition) is not built; partial reads come from real pipe/socket buffering (4 KiB pipes, dripping feeder)",
         ],
         "min_distinct": 40 if quick else 1000,
